@@ -27,6 +27,9 @@ type vSrvScenario struct {
 	StallName string            `json:"stallname"`
 	StallPt   int               `json:"stallpt"`
 	StallOcc  int               `json:"stallocc"`
+	UntilName string            `json:"untilname"`
+	UntilPt   int               `json:"untilpt"`
+	UntilOcc  int               `json:"untilocc"`
 	ID        string            `json:"id"`
 	Seed      int64             `json:"seed"`
 	Strategy  string            `json:"strategy"`
@@ -49,6 +52,7 @@ func vRunSrvScenario(sc *vSrvScenario) ([]vOutEvent, map[string]interface{}) {
 	}
 	s.plan = sc.Plan
 	s.stallName, s.stallPt, s.stallOcc = sc.StallName, int32(sc.StallPt), sc.StallOcc
+	s.untilName, s.untilPt, s.untilOcc = sc.UntilName, int32(sc.UntilPt), sc.UntilOcc
 	var mu sync.Mutex
 	var out []vOutEvent
 	ev := func(e, k string, n, m int, err string) {
